@@ -119,6 +119,9 @@ def check_case(case):
         if case.get("precache"):
             pre_tokens = {j["token"] for j in RW.jobs_of(schedcase.precache_program(prog, case["precache"]))}
         obs = schedcase.run_case(case, d)
+        if obs.timed_out:  # inconclusive (C18 owns termination)
+            case["_obs"] = dict(timed_out=True)
+            return []
         recs, started = check_log(obs.events, pre_tokens)
         for t in pre_tokens:
             if started.get(t):
@@ -140,7 +143,7 @@ def check_case(case):
             if r["signature"] not in seen:
                 seen.add(r["signature"])
                 r["detail"] = dict(worker=case.get("worker"), releases=obs.releases[:40],
-                                   error=short(obs.exception) if obs.exception else None)
+                                   error=obs.exception)
                 out.append(r)
         case["_obs"] = dict(max_blocked=obs.max_blocked, agreed=exp is not None and obs.outputs == exp,
                             timeouts=obs.settle_timeouts)
@@ -172,6 +175,8 @@ def run(sh):
                                                          "precached" if case["precache"] else "cold"],
                          raise_unattributed=True)
         obs = case.pop("_obs", {})
+        if obs.get("timed_out"):
+            sh.count("inconclusive_timed_out")
         real_choice = case["worker"] != "sched" or obs.get("max_blocked", 0) >= 2
         if obs.get("agreed"):
             sh.count("outputs_equal_reference")
